@@ -201,5 +201,6 @@ func TestC38(t *testing.T) {
 func TestC38SQL(t *testing.T) {
 	st := stats.New("C38", "sql-seq")
 	defer st.Flush()
+	curStats = st
 	runSeq(t, st, func(rt *rapid.T, nSess int) backend { return newSQLBackend(nSess) }, true)
 }
